@@ -40,10 +40,18 @@ package ssh
 //@ ensures implies(err == nil, algs != nil)
 //@ ensures implies(err == nil, fc(C.KexAlgos, S.KexAlgos, algs.KeyExchange))
 //@ ensures implies(err == nil, fc(C.ServerHostKeyAlgos, S.ServerHostKeyAlgos, algs.HostKey))
-//@ ensures implies(err == nil && isClient, dirOK(C.CiphersClientServer, S.CiphersClientServer, C.MACsClientServer, S.MACsClientServer, C.CompressionClientServer, S.CompressionClientServer, algs.Write))
-//@ ensures implies(err == nil && isClient, dirOK(C.CiphersServerClient, S.CiphersServerClient, C.MACsServerClient, S.MACsServerClient, C.CompressionServerClient, S.CompressionServerClient, algs.Read))
-//@ ensures implies(err == nil && !isClient, dirOK(C.CiphersClientServer, S.CiphersClientServer, C.MACsClientServer, S.MACsClientServer, C.CompressionClientServer, S.CompressionClientServer, algs.Read))
-//@ ensures implies(err == nil && !isClient, dirOK(C.CiphersServerClient, S.CiphersServerClient, C.MACsServerClient, S.MACsServerClient, C.CompressionServerClient, S.CompressionServerClient, algs.Write))
+//@ ensures implies(err == nil && isClient, fc(C.CiphersClientServer, S.CiphersClientServer, algs.Write.Cipher))
+//@ ensures implies(err == nil && isClient && !aeadCiphers[algs.Write.Cipher], fc(C.MACsClientServer, S.MACsClientServer, algs.Write.MAC))
+//@ ensures implies(err == nil && isClient, fc(C.CompressionClientServer, S.CompressionClientServer, algs.Write.compression))
+//@ ensures implies(err == nil && isClient, fc(C.CiphersServerClient, S.CiphersServerClient, algs.Read.Cipher))
+//@ ensures implies(err == nil && isClient && !aeadCiphers[algs.Read.Cipher], fc(C.MACsServerClient, S.MACsServerClient, algs.Read.MAC))
+//@ ensures implies(err == nil && isClient, fc(C.CompressionServerClient, S.CompressionServerClient, algs.Read.compression))
+//@ ensures implies(err == nil && !isClient, fc(C.CiphersClientServer, S.CiphersClientServer, algs.Read.Cipher))
+//@ ensures implies(err == nil && !isClient && !aeadCiphers[algs.Read.Cipher], fc(C.MACsClientServer, S.MACsClientServer, algs.Read.MAC))
+//@ ensures implies(err == nil && !isClient, fc(C.CompressionClientServer, S.CompressionClientServer, algs.Read.compression))
+//@ ensures implies(err == nil && !isClient, fc(C.CiphersServerClient, S.CiphersServerClient, algs.Write.Cipher))
+//@ ensures implies(err == nil && !isClient && !aeadCiphers[algs.Write.Cipher], fc(C.MACsServerClient, S.MACsServerClient, algs.Write.MAC))
+//@ ensures implies(err == nil && !isClient, fc(C.CompressionServerClient, S.CompressionServerClient, algs.Write.compression))
 //@ ensures implies(err != nil, !common(C.KexAlgos, S.KexAlgos) || !common(C.ServerHostKeyAlgos, S.ServerHostKeyAlgos) ||
 //@ |   !dirPossible(C.CiphersClientServer, S.CiphersClientServer, C.MACsClientServer, S.MACsClientServer, C.CompressionClientServer, S.CompressionClientServer) ||
 //@ |   !dirPossible(C.CiphersServerClient, S.CiphersServerClient, C.MACsServerClient, S.MACsServerClient, C.CompressionServerClient, S.CompressionServerClient))
